@@ -10,7 +10,7 @@
 (*   same query on the other storage variants run in lock-step (C06).      *)
 (* A Panic / Hang event has no action: the trace is rejected at that line. *)
 (***************************************************************************)
-EXTENDS DbModel, Json, IOUtils
+EXTENDS DbSearch, Json, IOUtils
 
 Rec == ndJsonDeserialize(IOEnv.TRACE)
 
@@ -161,6 +161,24 @@ TSelectIds == /\ IsEvent("SelectIds") /\ Same /\ OthersAgree(E)
                                                   (IF db.inn[ids[i]] = <<>> THEN 0 ELSE Head(db.inn[ids[i]]))>>
                                    ELSE <<ids[i], db.edges[ids[i]][1], db.edges[ids[i]][2]>>]
 
+\* ---- searches (C14 - C18): three layers, each decided separately -------------------------------
+\*   base    = the search without limit/offset/order-by  (traversal + conditions / path / elements)
+\*   ordered = base stably sorted by the order-by keys
+\*   res     = ordered sliced by offset / limit
+SearchResolvable(s, e) ==
+  CASE e.alg = "elements" -> TRUE
+    [] e.alg = "path" -> Resolvable(s, e.origin) /\ Resolvable(s, e.dest)
+    [] OTHER -> Resolvable(s, e.origin)
+BaseOk(s, e) ==
+  CASE e.alg = "elements" -> ElementsOk(s, e.conds, e.base)
+    [] e.alg = "path" -> PathOk(s, e.conds, Resolve(s, e.origin), Resolve(s, e.dest), e.base)
+    [] OTHER -> e.base = Traverse(s, e.alg, e.dir, Resolve(s, e.origin), e.conds)
+TSearch == /\ IsEvent("Search") /\ Same /\ OthersAgree(E)
+           /\ E.ok = SearchResolvable(db, E)
+           /\ E.ok => /\ BaseOk(db, E)
+                      /\ SortedStable(db, E.order, E.base, E.ordered)
+                      /\ E.res = Slice(E.ordered, E.offset, E.limit)
+
 \* ---- full observation: the canonical dump through the public API equals the model state ---
 TObserve == /\ IsEvent("Observe") /\ Same
             /\ db = DumpState(E)
@@ -174,7 +192,7 @@ TMaintain == IsEvent("Maintain") /\ E.ok /\ Same
 
 TNext == TReset \/ TMut \/ TTx \/ TSelectValues \/ TSelectKeys \/ TSelectKeyCount \/ TSelectAliases
          \/ TSelectAllAliases \/ TSelectEdgeCount \/ TSelectNodeCount \/ TSelectIndexes \/ TSearchIndex
-         \/ TElements \/ TSelectIds \/ TObserve \/ TMaintain
+         \/ TElements \/ TSelectIds \/ TObserve \/ TMaintain \/ TSearch
 
 TraceSpec == TInit /\ [][TNext]_tvars
 
